@@ -60,6 +60,12 @@ ASSUMPTIONS = [
     "continued-fraction implementation in the Lean driver",
     "numba_backend._make_expression_array (deprecated get_compiled_array) prints components with str(): compile-time "
     "refusals of names that differ between sympy and numpy are counted, not judged; returned values are judged",
+    "Piecewise((a, c), (b, True)) is read as the selection c*a + (1 - c)*b with the 0/1 value of the comparison c (Lean: "
+    "`select`, theorems `select_eval`, `select_cmp_eval`): equal to the selected branch wherever BOTH branches are defined; "
+    "a point where the branch that is not taken is undefined is an undefined point of the reference and is skipped (the "
+    "generator types both branches as defined on the whole grid)",
+    "`depends_on(v)` is judged between two bounds: it must be False for a variable the (selected) components do not mention "
+    "and True for one whose change visibly changes their value; in between (`x - x`) sympy's simplification decides",
 ]
 TRUSTED_EXTRA = [
     "libm functions of Lean's Float equal CPython's math functions to 1e-12 relative",
@@ -67,6 +73,8 @@ TRUSTED_EXTRA = [
     "numpy's indexing of an array of component coordinates as the reference for which components an index expression "
     "selects (the Lean model `getItem` is compared with it on every index)",
 ]
+# floors of the quick tier (a run that explored less than this proves nothing about the leg)
+MIN_LEGS = {"scalar": 300, "field": 180, "tensor": 60, "tindex": 40}
 TOL = 1e-9
 # derivatives against the numerical derivative of the written formula (mpmath, 30 digits)
 DTOL_REL, DTOL_ABS = 1e-8, 1e-10
@@ -1854,8 +1862,9 @@ def judge_program(ctx, p, res, ans_main, ansF, stats, ians=None):
             continue
         # a route may legitimately fail only where every reference is undefined
         if not tolerated and n_ok > 0:
-            ctx.monitor_fail(route.split(":")[0], case, msg, "a value", f"{route.split(':')[0]} raises on a valid program",
-                             key=finding_key(p, route, msg))
+            # index routes carry the index expression in their name: the replay needs it
+            ctx.monitor_fail(route.split(":")[0], dict(case, route=route) if route.startswith("index-") else case, msg, "a value",
+                             f"{route.split(':')[0]} raises on a valid program", key=finding_key(p, route, msg))
 
     # ---- values ------------------------------------------------------------------------------------
     dref_cache = {}
@@ -2008,8 +2017,8 @@ def judge_meta(ctx, p, case, route, m, sshape, origs, model, texts, refs, asts_b
             probs.append((f"depends_on({v})", False, True))
         ctx.hist("depends_on", f"{bool(got)}/{'mentioned' if v in syn else 'absent'}")
     for what, got, want in probs:
-        ctx.monitor_fail(route.split(":")[0], dict(case, route=route, what=what), got, want,
-                         f"{route.split(':')[0]}: {what} of the expression is wrong",
+        ctx.monitor_fail(route.split(":")[0], dict(case, route=route, metadata=what), got, want,
+                         f"{route.split(':')[0]}: {what.split('(')[0]} of the expression is wrong",
                          key={"kind": p["kind"], "route": route.split(":")[0], "what": what.split("(")[0]})
     # the model: rank and shape of `getChain`; `dependsOn` is the syntactic upper bound (theorem `dependsOn_sound`)
     if model is not None:
@@ -2122,8 +2131,9 @@ def judge_index(ctx, p, res, mode, ans, ians, refs, texts, case, n_ok, dref_cach
             else:
                 bad = val is None or not close(val, pv)
             if bad:
-                ctx.monitor_fail(base, c, val, pv, f"{base}: value of the indexed expression differs from the written formula "
-                                 f"of component {list(orig)}", key=finding_key(p, route, "", None if is_d else orig))
+                ctx.monitor_fail(base, dict(c, component_of_array=list(orig)), val, pv,
+                                 f"{base}: value of the indexed expression differs from the written formula of the selected component",
+                                 key=finding_key(p, route, "", None if is_d else orig))
             elif not is_d and base in ("index-numpy", "index-numpy-array"):
                 fv = full.get((ipt, orig))
                 if fv is not None and not close(val, fv, 2 * TOL):
@@ -2314,7 +2324,7 @@ def replay(ctx, rep):
               "calls is unknown")
         return False
     route = c.get("route") or (rep.get("key") or {}).get("route")
-    prog = {k: v for k, v in c.items() if k not in ("route", "point", "comp", "shrunk", "shrink_error", "exec_mode")}
+    prog = {k: v for k, v in c.items() if k not in ("route", "point", "comp", "shrunk", "shrink_error", "exec_mode", "component_of_array", "metadata")}
     prog.update({"id": 0, "ast": None, "jit": bool(route and "numba" in route and "numba-src" not in route) or
                  (c.get("exec_mode") == "J" and bool(c.get("jit")))})
     prog.setdefault("indexed", True)
@@ -2479,6 +2489,9 @@ def replay_index(c, rep, prog, obs, errs, texts):
         return False
     ok, n = True, 0
     recorded_value = "point" in c and not isinstance(rep.get("observed"), str)
+    # the recorded symptom may be the comparison with py-pde's own evaluation of the whole array
+    vs_full = (rep.get("key") or {}).get("what") == "component of the full evaluation"
+    full = {(ipt, tuple(comp)): val for r, ipt, comp, val in obs if r in ("tensor-numpy", "tensor-numpy-array")}
     for r, ipt, comp, val in obs:
         if ipt is None or r != route:
             continue
@@ -2491,6 +2504,14 @@ def replay_index(c, rep, prog, obs, errs, texts):
             n += 1
             continue
         orig = tuple(sel[ck])
+        if vs_full:
+            fv = full.get((ipt, orig))
+            good = fv is not None and val is not None and close(val, fv, 2 * TOL)
+            n += 1
+            print(f"route={r} point={ipt} comp={comp}: expr{tag}(x)={val!r}, component {list(orig)} of expr(x)={fv!r} "
+                  f"{'ok' if good else 'DIFFER'}")
+            ok = ok and good
+            continue
         if dvar is not None:
             pv = fd_derivative(prog, texts[orig], ipt, dvar)
             scale = abs(X.python_eval(texts[orig], env_of(prog, ipt), uf) or 1.0)
